@@ -59,6 +59,9 @@ type ShipConnection struct {
 
 	shutdownOnce sync.Once
 
+	// set once CloseConnection was invoked, a closed connection ignores any further handshake input
+	connectionClosed bool
+
 	// the end of the connection is reported to the info provider only once
 	closedReportOnce sync.Once
 
@@ -119,7 +122,7 @@ func (c *ShipConnection) ShipHandshakeState() (model.ShipMessageExchangeState, e
 // invoked when pairing for a pending request is approved
 func (c *ShipConnection) ApprovePendingHandshake() {
 	state := c.getState()
-	if state != model.SmeHelloStatePendingListen {
+	if state != model.SmeHelloStatePendingListen || c.isConnectionClosed() {
 		// TODO: what to do if the state is different?
 
 		return
@@ -143,7 +146,7 @@ func (c *ShipConnection) ApprovePendingHandshake() {
 // invoked when pairing for a pending request is denied
 func (c *ShipConnection) AbortPendingHandshake() {
 	state := c.getState()
-	if state != model.SmeHelloStatePendingListen && state != model.SmeHelloStateReadyListen {
+	if (state != model.SmeHelloStatePendingListen && state != model.SmeHelloStateReadyListen) || c.isConnectionClosed() {
 		// TODO: what to do if the state is differnet?
 
 		return
@@ -158,6 +161,8 @@ func (c *ShipConnection) AbortPendingHandshake() {
 // close this ship connection
 func (c *ShipConnection) CloseConnection(safe bool, code int, reason string) {
 	c.shutdownOnce.Do(func() {
+		c.setConnectionClosed()
+
 		c.stopHandshakeTimer()
 
 		// handshake is completed if approved or aborted
@@ -212,6 +217,21 @@ func (c *ShipConnection) closeDataConnectionAndReport(code int, reason string, h
 	c.closedReportOnce.Do(func() {
 		c.infoProvider.HandleConnectionClosed(c, handshakeEnd)
 	})
+}
+
+func (c *ShipConnection) setConnectionClosed() {
+	c.mux.Lock()
+	defer c.mux.Unlock()
+
+	c.connectionClosed = true
+}
+
+// returns if CloseConnection was invoked on this connection
+func (c *ShipConnection) isConnectionClosed() bool {
+	c.mux.Lock()
+	defer c.mux.Unlock()
+
+	return c.connectionClosed
 }
 
 var _ api.ShipConnectionDataWriterInterface = (*ShipConnection)(nil)
